@@ -398,7 +398,7 @@ func (s *gspec) minSpanningForestWeight(w func(i, j int) int) int {
 		}
 	}
 	need := s.n - len(s.components())
-	best := -1
+	best, found := 0, false
 	var sub [][2]int
 	for m := 0; m < 1<<uint(len(pairs)); m++ {
 		if bits.OnesCount32(uint32(m)) != need {
@@ -415,12 +415,9 @@ func (s *gspec) minSpanningForestWeight(w func(i, j int) int) int {
 		if _, ok := forestLabels(s.n, sub); !ok {
 			continue
 		}
-		if best < 0 || tot < best {
-			best = tot
+		if !found || tot < best {
+			best, found = tot, true
 		}
-	}
-	if best < 0 {
-		best = 0
 	}
 	return best
 }
